@@ -65,6 +65,12 @@ CHECKS = {
         technique="relational oracle on executions + reference-model monitor (closed-form heat-capacity correlations)",
         ref="DESIGN.md 2/C10",
     ),
+    "C12": dict(
+        text="Differential monitoring of guess independence on executions: every must-succeed pure record of the shipped collections at 3 (quick) / 20 (thorough) temperatures, solved at T and at p without guess and guided by an equilibrium up to 0.3 T_c away; PC-SAFT hydrocarbon pairs without liquid-liquid demixing: bubble / dew points with pressure guesses within a factor 3 and none / exact / blurred vapour-composition guesses, flashes restarted from bubble or dew equilibria; every point of PhaseDiagram::pure, binary_vle, bubble_point_line and dew_point_line (random npoints 3..62, random start temperature) against the stand-alone solve at that point; the same pure diagram with the 'given state' and 'ideal gas' initialisations made to fail by failpoints (hook-observed) so every point restarts from the spinodal; Newton-wrapper constructors (p,h), (p,s), (T,s), (T,p) from two different initial temperatures / densities on supercritical states. Guided and unguided solutions compared in T, p, both densities and both compositions (1e-7; 1e-6 where the solver tolerance is on another quantity). Recorded defect: collapse to a near-trivial pair of phases close to the critical point (F33) is KNOWN-FINDING.",
+        note="A guided call that fails is allowed (statement: 'and converges'). Dew-line points within 3 % of the highest dew temperature are skipped: the dew pressure at given T is two-valued there, so inequality of two solves is not a violation.",
+        technique="differential oracle on executions (guided vs unguided solves, diagram points vs stand-alone solves) + fault injection at hooked initialisation stages",
+        ref="DESIGN.md 2/C12",
+    ),
     "C13": dict(
         text="Runtime monitoring of B, C, dB/dT, dC/dT of random pure/binary/ternary models of every non-electrolyte family against the low-density limit built from finite-density states of the same model ((Z-1)/rho at rho, 2rho, 4rho at two density levels, Richardson-extrapolated, the level difference as error bar) and against finite differences in T; finiteness of all four. Recorded defects (uv-theory BH, SAFT-VRQ Mie mixtures, functionals) are reported as KNOWN-FINDING.",
         note="Reference accuracy 1e-9 (B) / 1e-5 (C) where the density expansion converges at the probe densities; cases where it does not (strong association at low T) are counted as unresolved, not checked.",
